@@ -166,6 +166,16 @@ is a fresh `NewDefaultSMT(NewTxn(…))` over the database — never the live sto
 `Commit()` is the speculative tree of the next, uncommitted block. -/
 theorem readonly_builds_fresh_tree : Gen.SmtFacts.readOnlyBuildsFreshCommitment = true := by decide
 
+/-- **Tie to the source (generated on every run, from both sites).** The prefix `Store.Root()` writes the commitment tree
+under is among the prefixes `Store.Rollback(v)` prunes above `v`: the tree nodes of abandoned heights do not survive a
+rollback. -/
+theorem rollback_prunes_tree_prefix : Gen.SmtFacts.rootWritesPrefix ∈ Gen.SmtFacts.rollbackPrunedPrefixes := by decide
+
+/-- after `Rollback(v)` the store continues from (and `NewReadOnly` serves) the tree committed for `v`, whatever the tip
+of the abandoned fork was — depends on `rollback_prunes_tree_prefix` -/
+theorem rollback_restores_target_tree (target tip : Trie) :
+    rollbackTree Gen.SmtFacts.rollbackPrunedPrefixes Gen.SmtFacts.rootWritesPrefix target tip = target := by
+  simp [rollbackTree, rollback_prunes_tree_prefix]
 
 /-- the verifier rejects every corpus scenario of part A (and still accepts the honest statements) -/
 theorem fixed_rejects_witnesses :
